@@ -12,6 +12,7 @@
 #include <algorithm>
 #include <set>
 #include "mainloop_fixture.h"
+#include "pollq.h"
 #include "ebusd/mqtthandler.h"
 #include "lib/ebus/stringhelper.h"
 #include "lib/utils/arg.h"
@@ -248,7 +249,7 @@ static string levelCase(LvlCtx* c, const string& D, const string& M, size_t mi, 
     c->w->newLoop("", true, f.str());
   }
   for (auto* v : {&c->rd, &c->wr, &c->pv}) for (Message* m : *v) { m->m_lastUpdateTime = 0; m->m_lastChangeTime = 0; m->m_pollPriority = 0; m->m_lastMasterData.clear(); m->m_lastSlaveData.clear(); }
-  c->w->messages->m_pollMessages.c.clear();
+  vp::pollQueueClear(&c->w->messages->m_pollMessages);
   g_now += 1000;
   string eff = M == "-" ? D : M;
   bool granted = refGranted(c->levels[mi], eff);
